@@ -92,7 +92,8 @@ def names_module(ch):
         else:
             n = b'e%d' % i
         used_exp.add(n)
-        m.exports.append((n, 'func', nimp + i))
+        if ch.below(4):                      # some functions stay internal
+            m.exports.append((n, 'func', nimp + i))
     mode = ch.below(4)
     if mode == 1:
         m.func_names = {nimp + i: exotic_name(ch) for i in range(nf)}
@@ -111,7 +112,9 @@ def names_module(ch):
                         bytes(ch.below(256) for _ in range(ch.below(20)))))
         m.customs.append((ch.below(12), b'name', junk))
     if m.func_names is not None and ch.below(3) == 0:
-        m.name_section_pos = ch.below(12)        # the name section somewhere in front of / between the other sections
+        # the name section somewhere in front of / between the other sections; most often right behind the import section (the
+        # reader then knows the imported functions but none of the defined ones)
+        m.name_section_pos = ch.pick((2, 2, 2, ch.below(12)))
     return m
 
 
@@ -274,7 +277,7 @@ def any_module(ch, allow_stress=True):
             m.func_names = {ni + i: b'fn_%d' % i for i in range(len(m.funcs)) if ch.below(4)}
             add_name_subsections(ch, m, ni + len(m.funcs))
             if ch.below(3) == 0:
-                m.name_section_pos = ch.below(12)
+                m.name_section_pos = ch.pick((2, 2, ch.below(12)))
         if ch.below(3) == 0:
             # a valid module is valid in every spec-equivalent encoding: padded LEB128 fields, flag-2 data segments, custom sections,
             # regrouped locals, empty sections, DataCount
